@@ -150,6 +150,8 @@ def render_program(apps: List[App], variables: List[Var], w: int, init: str) -> 
         if var.hidden:
             continue
         lines.append(f'{var.name}: ;0' if var.kind == 'field' else f'{var.name}: {var.kind}.vec {var.length}')
+    # user constants spelled like the parameters of the library's macros, defined last: inside a macro its parameter is the parameter
+    lines.extend(['n = 4', 'x = 9', 'times = 3', 'dst = 5', 'src = 6', 'a = 7', 'b = 2', 'i = 11', 'val = 13', 'bit = 1', 'hex = 2'])
     return '\n'.join(lines) + '\n'
 
 
